@@ -7,7 +7,9 @@ PROP = {
     "rule": "determ: generated (template, logical environment) pairs, 65 % of them map-heavy (string-keyed maps of 2..12 "
             "entries consumed by for, tablerow, first, last, join, map, sort, size, {{ m }}, concat, uniq, json ...; a fixed family of "
             "maps with closely spaced integer keys, shared-prefix string keys and three levels of nested maps under every iterating "
-            "construct and under json / inspect); for "
+            "construct and under json / inspect, and two map[any]any with keys equal by value and different in type); half of the "
+            "generated environments and every fixed-family map again are sent with the entries of every map in a pseudo-random order "
+            "(the model sorts where the code sorts); for "
             "each pair the Go maps (bindings map included) are built in 4 insertion orders; rendered 5x on one parsed "
             "template with one environment object, with the 3 other constructions, on 2 fresh parses, on 2 fresh "
             "engines, and through Render, RenderString, FRender, ParseAndRender, ParseAndRenderString, ParseAndFRender "
@@ -25,25 +27,56 @@ TEXT = {
               'parses and fresh engines agree" holds by construction and is not evidence about the code (reparse_same is x = x, '
               'by rfl); entrypoints_agree (also by rfl) says that a model of ParseAndRender - compile, then Render of the tree - '
               'unfolds to `run`; the other entry points have no model of their own, their agreement is checked by `determ` only. '
-              'Theorems with content: sort_perm_invariant / map_order_independent - sorting any two permutations of the '
-              'same distinct-key entries gives the same list, for every list of string-keyed entries (the order '
-              'values.SortedMapKeys uses); they are about the function sortedEntries, which `run` does not call: the model receives '
-              'maps already in key order (the codec keeps them so) and iterates them as given, so no theorem says that `run` is '
-              'invariant under a permutation of a map\'s entries. The JSON printers (json, inspect) do sort inside the model: '
+              'Theorems with content, about Go\'s random map iteration order. The model holds a map as a LIST of entries in the order '
+              'of the case line (no order is assumed) and every place that iterates a map sorts first, as every such place of the code '
+              'calls values.SortedMapKeys: Liquid/MapOrder.lean transcribes keyClass / valueLess / numberLess / keyTypeName / keyLess of '
+              'values/sort.go clause by clause, sortedEntries is the stable (insertion) sort by keyLess on the key, and loopItems '
+              '(for / tablerow over a map) and Convert of a map to []any (the receiver of every array filter) call it; a map with two '
+              'or more keys that are neither booleans, numbers nor strings (ordered by fmt.Sprint in Go) is `unmodelled`. '
+              'Proofs/MapOrder.lean, for keys that are booleans, numbers (integers inside the range of their Go type) or strings and '
+              'pairwise distinct as Go map keys - different dynamic type or different value, as two keys of one Go map always are '
+              '(KeysOK): keyLess_irrefl, keyLess_trans, keyLess_total - keyLess is a strict total order (keyLess_total is the statement '
+              'that was false before the repair 6d9b1b2: 1, 1.0 and int64(1) were incomparable); sortedEntries_perm - every '
+              'permutation of the entries sorts to the same list; the sites: loopItems_map_perm (the items a for / tablerow loop '
+              'visits), convert_map_perm (the array an array filter receives), applyFilter_map_perm and first_map_perm / '
+              'last_map_perm / join_map_perm / size_map_perm. sort_perm_invariant / map_order_independent are the earlier statement '
+              'for string keys and mergeSort. Whole render (Proofs/C02.lean over Proofs/MapPerm*.lean): MP a b - b is a with the entry '
+              'lists of maps permuted at any depth (inductive on GoVal; maps with KeysOK keys; the renderer\'s own forloop record is '
+              'related to itself only); run_map_order_independent - for every comparison / filter layer and output layer that respect '
+              'MP, every template, configuration, file system and include depth, environments whose bindings are MP-related render to '
+              'the same result (lock-step induction over the compiled tree: lookups find the same entry because keys are distinct, '
+              'loops visit the sorted entries); run_std_map_order_independent - for the standard engine (stdPrims, stdOut: all 48 '
+              'filters, every comparison), with no hypothesis left but the relation of the environments, the two results AGREE '
+              '(equal, or one of the two runs is `unmodelled`): the standard output layer (fmt.Sprint sorts map keys: sprint_mp, '
+              'stdOut_respectsM), the standard comparisons (== / case-when: equal_mp - equalMaps is a conjunction over all entries; '
+              '<: opLt_prep_mp, exact; contains: opContains_prep_mp) and every filter (filterRespectsM_all; json / inspect: '
+              'marshal_jrel - the two values marshal to the same text or neither marshals; type: typeName_mp; sort / sort_natural: '
+              'insertionSortM_mp, mergeSort_mp - both runs make the same comparisons with the same answers; uniq: canonOrder_mp) '
+              'respect MP up to `unmodelled` - entries are printed and compared in list order, so which part of a value leaves the '
+              'model first, and with an early exit whether it is reached at all, depends on that order. '
+              'The JSON printers (json, inspect) do sort inside the model: '
               'jsonObject_perm / json_map_order_independent / json_keyedMap_order_independent prove that '
               'whenever json.Marshal of a map succeeds and the key texts are distinct, every permutation of its entries marshals to '
               'the same text (nothing is stated for a marshal that fails or is unmodelled). Tie: every `determ` case line is answered by the '
               'model and compared with the real engine; on the real code each case is rendered 5x on one template, with maps '
               'rebuilt in 4 insertion orders, on fresh parses and engines, through the six entry points (the three ParseAnd* ones '
               'only for cases without includes) and through cmd/liquid, '
-              'and all results must be identical.'),
+              'and all results must be identical. Half of the generated environments, and every map of the fixed family a second '
+              'time (the two mixed-key maps - 1, 1.0, int64(1), uint8(1), float32(1), "1", true; neighbours of 2^53 of four types - '
+              'three more times), are sent with the entries of every map in a pseudo-random order (VMapOrdered / Shuffled in '
+              'harness/codec.go; drawn from an RNG of the case, so a case replays): the Go maps are the same, the model has to sort to '
+              'agree. The streams loops (C11) and arrf (C15) do the same for half of their cases that hold a map.'),
     "design_ref": 'DESIGN.md 6 C02',
-    "note": NOTE + ("What the model cannot exhibit is Go's randomised map iteration itself: that every place where the code iterates a "
-              'map sorts first is established by the metamorphic runs (string-keyed maps and the int-key families; the only '
-              'float-keyed map generated has one entry), not by a '
-              'theorem; nor is there a theorem about parsed templates, engines or entry points as objects with state - the '
+    "note": NOTE + ("That every place where the CODE iterates a map sorts first is established by the source tie T5 and the "
+              'metamorphic runs, and by the correspondence on shuffled entry lists (the model sorts at exactly those places); the '
+              'whole-render theorem for the standard engine (run_std_map_order_independent) is an '
+              'agreement up to `unmodelled`, not an equality. Keys that are neither booleans, numbers nor strings are ordered by '
+              'fmt.Sprint in Go: outside every theorem (and two different such keys can print alike: 7.3). There is no theorem about '
+              'parsed templates, engines or entry points as objects with state - the '
               "metamorphic runs carry that. The clock (date: 'now') is outside the property and never generated."),
-    "technique": ('Lean 4 proof (permutation-invariance of the sorted map order and of the JSON object text; determinism across '
+    "technique": ('Lean 4 proof (the comparator of values.SortedMapKeys is a strict total order on the keys of one map, so the sorted '
+              'entry list and with it the whole render of the model are invariant under permutations of map entries; '
+              'permutation-invariance of the JSON object text; determinism across '
               'renders, parses and engines is the purity of the model, true by construction) + '
               'model/implementation correspondence + metamorphic runs of the implementation over permuted map constructions and '
               'entry points'),
